@@ -137,6 +137,10 @@ def charges(rep):
 
 
 # ------------------------------------------------------------------ O10.2
+def _wrap(val: str) -> str:
+    return val if val.isidentifier() else f"<{val}>"
+
+
 def _sym(expr, env, known=None):
     """normalised text of expr with local names replaced by their symbolic values;
     conditional expressions decided by the path's flag values are resolved"""
@@ -154,7 +158,7 @@ def _sym(expr, env, known=None):
 
         def visit_Name(self, n):
             if n.id in env:
-                return ast.Name(id=f"<{env[n.id]}>", ctx=n.ctx)
+                return ast.Name(id=_wrap(env[n.id]), ctx=n.ctx)
             return n
     import copy
     e2 = T().visit(copy.deepcopy(expr))
@@ -187,16 +191,16 @@ def producers(rep):
                                     env[e.id] = f"{val}[{i}]"
                         for c in ast.walk(st.value):
                             if isinstance(c, ast.Call) and call_name(c) == "transform" and c.args and isinstance(c.args[0], ast.Tuple):
-                                hit = [_sym(e, env, known) for e in c.args[0].elts]
+                                hit = [env.get(e.id, e.id) if isinstance(e, ast.Name) else _sym(e, env, known) for e in c.args[0].elts]
                 if hit is None:
                     continue
                 n_paths += 1
-                L, R, K = [h.strip("<>") for h in hit]
+                L, R, K = hit
                 k = K
-                ok = (L == f"its_decompose(<{k}>)[0]" and R == f"its_decompose(<{k}>)[1]")
+                ok = (L == f"its_decompose({_wrap(k)})[0]" and R == f"its_decompose({_wrap(k)})[1]")
                 if not ok:
                     # (r, p, ITSGraph(r, p)) form
-                    ok = k.replace(" ", "") == f"ITSConstruction().ITSGraph(<{L}>,<{R}>)".replace(" ", "")
+                    ok = k.replace(" ", "") == f"ITSConstruction().ITSGraph({_wrap(L)},{_wrap(R)})".replace(" ", "")
                 rep.ob("O10.2", "SIB", fi, ok, f"core={core}: transform((L, R, K)) with K = {k[:60]}",
                        "left/right fragments and the context written to GML come from ONE graph (its_decompose(K) with the same K, or K built from exactly (L, R))",
                        {"L": L[:80], "R": R[:80], "K": k[:80]})
